@@ -16,6 +16,7 @@ type Limits struct {
 	BigStr   bool // allow the occasional 256..70000 byte string
 	ASCII    bool // printable ASCII strings only (JSON-representable)
 	Finite   bool // finite floats only (JSON-representable)
+	Huge     bool // most strings are 70000..700000 bytes (bulk transfers)
 }
 
 var DefaultLimits = Limits{MaxStr: 40, MaxElems: 5, BigStr: true}
@@ -49,6 +50,8 @@ func drawString(rt *rapid.T, lim Limits, label string) string {
 	mode := rapid.IntRange(0, 9).Draw(rt, label+".mode")
 	var n int
 	switch {
+	case lim.Huge && mode >= 3:
+		n = rapid.SampledFrom([]int{70000, 200000, 700000}).Draw(rt, label+".len")
 	case mode <= 5:
 		n = rapid.IntRange(0, lim.MaxStr).Draw(rt, label+".len")
 	case mode <= 7:
